@@ -152,14 +152,14 @@ static void mutate(cs::Src& s, std::string& t) {
   }
 }
 
-static void check_pair(cs::Ctx& ctx, cs::Src* s, bool msgpack, const std::string& bytes, const Val& f, int limit, bool filter_as_variant,
+static void check_pair(cs::Ctx& ctx, cs::Src* s, bool msgpack, const std::string& bytes, const Val& f_generated, int limit, bool filter_as_variant,
                        bool input_has_zone) {
   JsonDocument fdoc;
   {
     lib::Arena arena;
     cs::Src fixed;
     fixed.init_replay({});
-    if (!lib::build(fdoc.to<JsonVariant>(), f, s ? *s : fixed, arena)) ctx.fail("build", "filter document could not be built");
+    if (!lib::build(fdoc.to<JsonVariant>(), f_generated, s ? *s : fixed, arena)) ctx.fail("build", "filter document could not be built");
     // the arena holds linked strings: copy the document so that it owns everything
     JsonDocument copy;
     std::string tmp;
@@ -167,6 +167,14 @@ static void check_pair(cs::Ctx& ctx, cs::Src* s, bool msgpack, const std::string
     DeserializationError ce = deserializeMsgPack(copy, tmp.data(), tmp.size(), DeserializationOption::NestingLimit(255));
     if (ce) ctx.fail("harness", std::string("the filter document could not be copied: ") + ce.c_str());
     fdoc = copy;
+  }
+  // the filter as the document holds it (a tiny double is 0 when JsonFloat is float): the reference
+  // projects with exactly what the library is given
+  Val f;
+  {
+    lib::ObserveOpts fo;
+    fo.cross_checks = false;
+    f = lib::observe(fdoc.as<JsonVariantConst>(), fo);
   }
   Run u = execute(ctx, msgpack, bytes, F_NONE, nullptr, limit);
   Run t = execute(ctx, msgpack, bytes, F_TRUE, nullptr, limit);
